@@ -287,9 +287,39 @@ def check_module(res, m, ns, tree, mod, bb, bv, replay):
     undefined = sorted(x for x in used_names if x not in defined and not hasattr(builtins, x))
     if undefined:
         nsnames = {x.name for x in m.namespaces}
+        # a spec-level `import` that only serves doc references produces no Python
+        # import either, so what matters is whether the namespace names a type of
+        # that namespace in one of its own type expressions
+        direct = direct_type_namespaces(m, ns)
         cause = 'namespace_of_type_behind_foreign_alias_not_imported' \
-            if all(u in nsnames and u not in ns.imports for u in undefined) else 'other'
+            if all(u in nsnames and u not in direct for u in undefined) else 'other'
         res.violation({'kind': 'annotation_name_undefined', 'cause': cause}, {'names': undefined[:6]}, replay)
+
+
+def direct_type_namespaces(m, ns):
+    """Names of the namespaces whose types/aliases ns names in its own type expressions."""
+    out = set()
+
+    def walk(t):
+        if t is None:
+            return
+        if t.kind == 'ref':
+            out.add(t.ns)
+        for v in t.args.values():
+            if hasattr(v, 'kind'):
+                walk(v)
+    for d in ns.defs:
+        if d.kind in ('struct', 'union'):
+            if d.parent:
+                out.add(d.parent[0])
+            for f in m.own_fields(d):
+                walk(f.type)
+        elif d.kind == 'alias':
+            walk(d.type)
+        elif d.kind == 'route':
+            for t in (d.arg, d.result, d.error):
+                walk(t)
+    return out
 
 
 def shape_of(ann):
